@@ -44,6 +44,7 @@ import PS.Proofs.TtcfgBuildTerm
 import PS.Proofs.TtcfgCountS
 import PS.Proofs.TtcfgNoRepair
 import PS.Proofs.TtcfgCleanFirst
+import PS.Proofs.TtcfgBuildExact
 namespace PS.T
 open PS PS.G
 
@@ -857,5 +858,20 @@ example : (match saturationTable (sizeBuilder unin 2 4 true) unin.prims c true 1
                     !(AList.contains ((b, ([(f, 1)], (2, 1))) : NT Ctx (Nat × Nat)) G'.rules)
         | _ => false)
     | none => false) = true := by decide +kernel
+
+/-- **the table of `__saturation_build__` contains no junk**: every non-terminal with a row is the
+    non-terminal of a configuration (non-terminal, pending stack) reachable from the start
+    configuration by the pushes of the loop - either de-duplication, every builder, DSL, request,
+    fuel.  With `C13_saturation_closed`: the keys are exactly the reachable non-terminals. -/
+theorem C13_saturation_exact {S T : Type} [DecidableEq S] [DecidableEq T] (B : Builder S T) (prims : List Sym)
+    (request : Ty) (stackKey : Bool) (fuel : Nat) (G : TT S T) (h : saturationTable B prims request stackKey fuel = some G) :
+    ∀ k, AList.contains k G.rules = true → ∃ stack, SReach B prims request (k, stack) :=
+  saturation_exact B prims request stackKey fuel G h
+
+open Ex in
+/-- non-vacuity: the table of {+, 1} / int / 3 nodes has the three non-terminals S0, A, B and two more
+    that `clean` removes later -/
+example : ((saturationTable (sizeBuilder small 2 3 true) small.prims int true 100).map (fun G =>
+    AList.contains S0 G.rules && AList.contains A G.rules && AList.contains B G.rules)) = some true := by decide +kernel
 
 end PS.T
